@@ -67,7 +67,8 @@ def gen_case(seed, tier):
             'preexisting': rng.random() < 0.6, 'old_size': rng.choice([0, 5, 200]), 'page': rng.choice([1, 2, 1000]), 'others': rng.randrange(0, 4),
             'rate_limited': rng.random() < 0.5, 'opts': world.SchedOpts.swarm(rng, timer_p=0.0).as_dict(), 'max_points': 90 if tier == 'quick' else 400,
             # a slow link: every request takes up to this many (simulated) seconds
-            'svc_lat': substream(seed, 'c12-slow').choice([0.0, 0.0, 0.0, 150.0])}
+            'svc_lat': substream(seed, 'c12-slow').choice([0.0, 0.0, 0.0, 150.0]),
+            'old_same_length': substream(seed, 'c12-samelen').random() < 0.3}
 
 
 NAME = 'data/ab/cd/object-name'
@@ -136,6 +137,9 @@ def run_one(case, plan, seed_extra):
     prng = substream(case['sched_seed'], 'payload')
     new = prng.randbytes(case['size'])
     old = prng.randbytes(case['old_size']) if case['preexisting'] else None
+    if case['preexisting'] and case.get('old_same_length') and case['size']:
+        # an object of the same name and exactly the same length, other contents (a file rewritten in place)
+        old = bytes(b ^ 0x55 for b in new)
     others = {f'data/zz/{i:02d}/other-{i}': prng.randbytes(7 + i) for i in range(case['others'])}
     out = {}
     d = world.scratch_dir('c12', case['sched_seed'])
@@ -385,7 +389,7 @@ def plans_for(case, base):
         if op not in ops_seen:
             ops_seen.append(op)
     nchunks = max(1, -(-case['size'] // case['chunk'])) if case['size'] else 1
-    old_chunks = max(1, -(-case['old_size'] // 7)) if case['preexisting'] else 1
+    old_chunks = max(1, -(-(case['size'] if case.get('old_same_length') and case['size'] else case['old_size']) // 7)) if case['preexisting'] else 1
     for op in ops_seen:
         positions = [(None, False), (None, True)]
         if op in ('put', 'upload') and case['op'] == 'upload_stream':
